@@ -14,7 +14,7 @@ from pgpy.packet import Packet
 import pgpy.packet.fields as F
 import pgpy.constants as K
 
-FUNCTIONS_ENCODED = ['pgpy.constants.SymmetricKeyAlgorithm.gen_key / gen_iv', 'pgpy.pgp.PGPMessage.encrypt', 'pgpy.pgp.PGPKey.encrypt',
+FUNCTIONS_ENCODED = ['pgpy.packet.packets.SKESessionKeyV4.__init__', 'pgpy.constants.SymmetricKeyAlgorithm.gen_key / gen_iv', 'pgpy.pgp.PGPMessage.encrypt', 'pgpy.pgp.PGPKey.encrypt',
                      'pgpy.packet.packets.SKESessionKeyV4.encrypt_sk', 'pgpy.packet.packets.IntegrityProtectedSKEDataV1.encrypt',
                      'pgpy.packet.fields.PrivKey.encrypt_keyblob', 'pgpy.pgp.PGPKey.protect']
 STUBS = ['os.urandom (in pgpy.constants, pgpy.packet.packets, pgpy.packet.fields) -> symbolic entropy feed', 'cipher, S2K, SHA-1, public-key operation: stand-ins of harness/encfix.py and harness/c03.py']
@@ -37,20 +37,7 @@ def fit(b, n):
     return (bytes(b) + bytes(n))[:n]
 
 
-def drawn_fresh(calls, wanted):
-    """each wanted (size, value) is the value of its own draw of that size among `calls` (the draws of this operation only), no draw serving two roles;
-    the ORDER of the draws is not prescribed (the property does not fix it), nor is drawing more than needed"""
-    def rec(i, used):
-        if i == len(wanted):
-            return True
-        size, val = wanted[i]
-        for j in range(len(calls)):
-            if j not in used and calls[j][0] == size and calls[j][1] == val:
-                if rec(i + 1, used | {j}):
-                    return True
-        return False
-    return rec(0, frozenset())
-
+from harness.encfix import drawn_fresh
 
 @ob('O13.1', 'passphrase encryption: the session key, the S2K salt and the data prefix are three distinct draws from the entropy source with the sizes of '
              'key, 8 and block; a second encryption of the same message draws three new ones; none of them depends on the message',
